@@ -3,7 +3,7 @@
 Spec: Silences.tla (Silencer.Mutes with its incremental cache vs MutedRef).  MC: MC_Silences.cfg.
 Bind: TLC-simulated behaviours replayed on real Silences+Silencer; after every Mutes the real verdict
 and marker ids are compared with MutedRef evaluated by TLC."""
-import os
+import json, os
 from lib import vlib
 from checks import silcommon
 
@@ -27,11 +27,29 @@ def run(tier, v):
         "bounds": "MC: 1 local + 1 remote silence id, 1 label set, time 0..4, all interleavings of set/expire/merge/gc/restart/mutes/alert-gc; "
                   "Gen: behaviours of 40 ops over 6 local + 2 remote ids, 5 label sets, 6 matcher sets, time 0..12",
     })
+    # concurrent queries and updates: the cached Silencer vs a fresh one at quiescence (real goroutines)
+    binp = vlib.go_build_test(PID, "sil")
+    out = os.path.join(wd, "concurrent.json")
+    rc, txt = vlib.go_run_test(binp, "TestConcurrent$", ["-out", out, "-n", "3000" if tier == "thorough" else "400"], timeout=1200)
+    if rc != 0:
+        raise vlib.Inconclusive("concurrent stress test failed:\n" + txt[-2000:])
+    conc = vlib.load_result(out)
+    for m in conc["mismatches"][:5]:
+        rp = os.path.join(wd, "concurrent_round_%d.json" % m["case"])
+        json.dump(m, open(rp, "w"))
+        v.violation("%s: direct evaluation %s, cached verdict %s" % (m["what"], m.get("want"), m.get("got")), [rp])
+    cov["concurrent_rounds"] = conc["cases"]
+    # end-to-end clause: no notification of the real instance contains a silenced alert (observer AMObs)
+    from checks import e2ecommon
+    e = e2ecommon._run_scenarios(PID, tier, v, 200, 3000)
+    e2ecommon.judge(PID, v, e, {"C02"})
+    cov["e2e_scenarios"] = e["runs"]
+    cov["traces_validated_against_impl"] += e["runs"]
     return "model_checking", cov, [
         "all versions of one silence id carry the same matchers (enforced at the origin by canUpdate)",
         "no two writes to one silence id at the same instant (nanosecond clock); virtual time stands for the wall clock",
         "regex languages of Labels.tla are stated for the finite value universe (cross-checked by C16)",
-        "concurrent Mutes/updates are not explored here (sequential linearisation only)",
+        "concurrent Mutes/updates: differential stress test only (cached Silencer vs a fresh Silencer at quiescence), not a linearizability proof",
     ]
 
 
